@@ -146,6 +146,7 @@ def typedOp : List String → String
       match HeaderReader.split (blk ++ str "X-End: 1\r\n\r\nbody") with
       | some ([(_, v), _], _) =>
         if !HeaderReader.linesOk (kind == "ctype") 998 blk then propfail "header-line-malformed" else
+        if kind == "cdisp" && !HeaderReader.longLinesAreSingleTokens blk then propfail "line-over-78-that-could-have-been-folded" else
         if kind == "cdisp" && a != "inline0" then
           match ofHex b with
           | some fname =>
